@@ -49,6 +49,16 @@ class Relay(recorded.Module):
                   "CommonOrder": "C06-inv-CommonOrder", "ActiveNoDup": "C06-inv-ActiveNoDup",
                   "HeldBlocksSync": "C08-inv-HeldBlocksSync", "ExactlyOnce": "C08-inv-ExactlyOnce",
                   "ActiveWasSynced": "C08-inv-ActiveWasSynced"}
+    def design_proofs(self, prop, tier, sc):
+        if prop not in ("C08", "REL"):
+            return None
+        # exactly-once for one registering plugin and one container among any number of held sync blocks
+        return vlib.apalache_suite(sc.sub("apalache"), "SyncOnceInd",
+                                   [("Init => IndInv", "Init", "IndInv", 0),
+                                    ("IndInv /\\ Next => IndInv' (IndInv contains HeldBlocksSync and ExactlyOnce)", "IndInit", "IndInv", 1)],
+                                   ("/\\ pst = \"syncwait\" /\\ readers = 0 /\\ ~myblock /\\ ~swriter",
+                                    "/\\ pst = \"syncwait\" /\\ readers = 0 /\\ ~swriter"))
+
     assumptions = [
         "log order = order of appends under the recorder mutex; events that make something visible are logged before, "
         "events that acquire/consume after the operation (DESIGN.md R2), so the log is a valid linearisation",
